@@ -800,3 +800,43 @@ func init() {
 		return Val{T: resultType(in, c)}, nil
 	})
 }
+
+func init() {
+	// pod.GetObjectMeta().GetOwnerReferences(): both steps are functions of their receiver (the owner list of an object does
+	// not change between two reads inside one function that does not write it) — spec function ownerRefsOf(pod)
+	regLib("(*k8s.io/apimachinery/pkg/apis/meta/v1.ObjectMeta).GetObjectMeta", func(x *FnExec, fr *frame, n *node, in ssa.Instruction, c *ssa.CallCommon, args []Val, reach, hint string) (Val, error) {
+		// the receiver is &obj.ObjectMeta: the result is a function of the enclosing object
+		base := x.scalar(args[0])
+		if a := x.pointerAddr(args[0]); a != nil && a.Base != "" {
+			base = a.Base
+		}
+		fn := x.q.declareFun("lib_getObjectMeta", []string{"Ref"}, "Iface")
+		return Val{S: fmt.Sprintf("(%s %s)", fn, base), T: resultType(in, c)}, nil
+	})
+	libInvokeModels["k8s.io/apimachinery/pkg/apis/meta/v1.Object.GetOwnerReferences"] = &libModel{name: "Object.GetOwnerReferences", apply: func(x *FnExec, fr *frame, n *node, in ssa.Instruction, c *ssa.CallCommon, args []Val, reach, hint string) (Val, error) {
+		recv := x.value(fr, n.env, c.Value)
+		rt := resultType(in, c)
+		x.ownerRefsT = rt
+		fn := x.q.declareFun("lib_ownerRefs", []string{x.q.sortOf(recv.T)}, x.q.sortOf(rt))
+		term := fmt.Sprintf("(%s %s)", fn, x.scalar(recv))
+		x.assumeValid(reach, term, rt)
+		x.assumeAllocT(n.st, reach, term, rt, 1)
+		x.trusted["metav1.Object.GetOwnerReferences / (*Pod).GetObjectMeta are functions of their receiver (same object, same owner list)"] = true
+		return Val{S: term, T: rt}, nil
+	}}
+	specLibFuncs["ownerRefsOf"] = func(x *FnExec, c *evalCtx, args []Val) (Val, error) {
+		if x.ownerRefsT == nil {
+			if p := x.eng.pkgByPath("k8s.io/apimachinery/pkg/apis/meta/v1"); p != nil {
+				if o := p.Scope().Lookup("OwnerReference"); o != nil {
+					x.ownerRefsT = types.NewSlice(o.Type())
+				}
+			}
+		}
+		if x.ownerRefsT == nil {
+			return Val{}, fmt.Errorf("ownerRefsOf: metav1.OwnerReference not loaded")
+		}
+		om := x.q.declareFun("lib_getObjectMeta", []string{"Ref"}, "Iface")
+		fn := x.q.declareFun("lib_ownerRefs", []string{"Iface"}, x.q.sortOf(x.ownerRefsT))
+		return Val{S: fmt.Sprintf("(%s (%s %s))", fn, om, args[0].S), T: x.ownerRefsT}, nil
+	}
+}
